@@ -242,3 +242,17 @@ package objectcore
 //@   requires [integer_parsed_from_the_current_attribute_value] dbValueParsed(0)
 //@ func MetaDataKVHandler$1
 //@   loop 4 invariant dbValIsInt ==> dbValueParsed(0)
+// ... and such a filter lets the object pass to the next filter only on a value that did
+// parse: a present value that is no integer satisfies no numeric filter, whatever the bound
+// (also one that every integer satisfies).
+//@ ghost field intFilterPassed(x int) bool
+//@ callrule c03_attribute_value_fetched_resets_the_filter_state in MetaDataKVHandler$1
+//@   callee (object.AttributeGetter).Get
+//@   assigns intFilterPassed
+//@   defines !intFilterPassed(0)
+//@ callrule c03_integer_filter_recognised in MetaDataKVHandler$1
+//@   callee object.IsIntegerSearchOp
+//@   assigns intFilterPassed
+//@   defines intFilterPassed(0) == (old(intFilterPassed(0)) || result)
+//@ func MetaDataKVHandler$1
+//@   loop 4 invariant [numeric_filter_passes_only_a_value_that_parsed_as_integer] intFilterPassed(0) ==> dbValueParsed(0)
